@@ -74,7 +74,7 @@ def main():
       "setup_cmd":"./setup.sh",
       "hooks":{"guard":"--cfg typeshare_verif","enable":"RUSTFLAGS='--cfg typeshare_verif' cargo build -p typeshare-cli --features go,python --target-dir /verif/target/cli-verif",
                "baseline_off_cmd":"cd /repo && cargo nextest run --workspace --no-fail-fast --test-threads 8 --offline",
-               "source_commits":["9df0e9a","0d72a46"],"add_only":True},
+               "source_commits":["9df0e9a","0d72a46","3c9be5a"],"add_only":True},
       "engines":[
         {"name":"E3","path":"/verif/models/WalkCollect.tla + /verif/mc/src/e3.rs","serves_properties":["C06","C07"],"kind_free_text":"TLA+ protocol model checked and dumped by TLC; every maximal path replayed as a forced schedule on the real binary through the cfg(typeshare_verif) hooks"},
         {"name":"S-cli","path":"/verif/mc/src/cli.rs","serves_properties":["C06","C07","C08","C14","C17","C20"],"kind_free_text":"the real typeshare binary (hooks-on build) as a subprocess on scratch trees with a watchdog"},
